@@ -1893,7 +1893,7 @@ WHERE state = ?`
 	}
 	if !req.Before.IsZero() {
 		query += " AND received_at < ?"
-		args = append(args, req.Before.UnixNano())
+		args = append(args, saturatingUnixNano(req.Before))
 	}
 	query += " ORDER BY received_at DESC, id DESC LIMIT ?"
 	args = append(args, limit)
@@ -2073,7 +2073,7 @@ WHERE 1 = 1`
 	}
 	if !req.Before.IsZero() {
 		query += " AND received_at < ?"
-		args = append(args, req.Before.UnixNano())
+		args = append(args, saturatingUnixNano(req.Before))
 	}
 	query += " ORDER BY received_at " + orderByReceived + ", id " + orderByID + " LIMIT ?"
 	args = append(args, limit)
@@ -2735,7 +2735,7 @@ WHERE 1 = 1`
 	}
 	if !req.Before.IsZero() {
 		query += " AND received_at < ?"
-		args = append(args, req.Before.UnixNano())
+		args = append(args, saturatingUnixNano(req.Before))
 	}
 
 	if len(states) == 1 {
@@ -2849,7 +2849,7 @@ WHERE 1 = 1`
 	}
 	if !req.Before.IsZero() {
 		query += " AND created_at < ?"
-		args = append(args, req.Before.UnixNano())
+		args = append(args, saturatingUnixNano(req.Before))
 	}
 	query += " ORDER BY created_at DESC, id DESC LIMIT ?"
 	args = append(args, limit)
